@@ -582,6 +582,52 @@ def t13(rep):
     rep.floor("statement tags of fintStmt", n, 25)
 
 
+def t14(rep):
+    """The interpreter's value stack is a chain of chunks.  Leaving a chunk (stackFrameFree, when the frame pointer lies outside
+    the current chunk) restores `sp = stack[1].ptr; stack = stack[0].ptr`: cell [1] of a chunk holds the sp the previous chunk
+    had when the chunk was entered.  So every way of entering a chunk -- stackChain, whether it allocates the next chunk or
+    re-enters one allocated earlier -- must store the current sp into that chunk's cell [1] before moving sp into it.  A chunk
+    re-entered from a higher sp without the store later puts sp below live frames; the generated C has no such stack."""
+    f = common.extract("fint.c", trees=["stackChain"], cfg=["stackChain"])
+    # the reader side: the restore must still be what it was read to be
+    src = open(os.path.join(common.SRC, "fint.c"), errors="replace").read()
+    if not re.search(r"sp\s*=\s*stack\s*\[\s*1\s*\]\s*\.\s*ptr", src):
+        raise AnalysisBroken("fint.c: `sp = stack[1].ptr` (restore of the stack pointer when a chunk is left) not found: T14 must be re-derived")
+    fn = f.func("stackChain")
+    cfg = common.CFG(fn)
+
+    def saves_sp(e):
+        if e["k"] != "BinaryOperator" or e["op"] != "=":
+            return False
+        l, r = strip(e["c"][0]), strip(e["c"][1])
+        if r is None or r["k"] != "DeclRefExpr" or r["n"] != "sp":
+            return False
+        if l is None or l["k"] != "MemberExpr" or l["n"] != "ptr":
+            return False
+        a = strip(l["c"][0])
+        return a is not None and a["k"] == "ArraySubscriptExpr" and const_value(a["c"][1]) == 1
+
+    def moves_sp(e):
+        if e["k"] != "BinaryOperator" or e["op"] != "=":
+            return False
+        l = strip(e["c"][0])
+        return l is not None and l["k"] == "DeclRefExpr" and l["n"] == "sp"
+    moves = cfg.events(moves_sp)
+    if not moves:
+        raise AnalysisBroken("stackChain: no assignment to sp found")
+    bad = cfg.path_avoiding(cfg.entry, moves_sp, saves_sp, src_idx=-1)
+    where = "fint.c:%d (stackChain)" % fn["l"]
+    if bad is None:
+        rep.ok("T14", "chunk-entry-saves-sp", sample={"moves of sp": len(moves)})
+    else:
+        rep.violation("T14", "chunk-entry-saves-sp", where,
+                      "a path through stackChain moves sp into the next chunk without storing the old sp in that chunk's cell [1]: "
+                      "when execution later leaves the chunk, stackFrameFree restores sp from that cell, i.e. from an earlier "
+                      "crossing; a second deep call chain that crosses the boundary from a higher sp then returns with sp below "
+                      "live frames and the next call overwrites them (wrong values or a fault under -Ginterp, the executable is "
+                      "unaffected)", detail={"cfg_path": bad[:10]})
+
+
 def run(tier, only=None):
     rep = common.Report("C03", tier, EXPLANATION)
     f_fint = common.extract("fint.c", trees=INTERP_CHAIN + ["fintInitForeignGlobValue"])
@@ -597,6 +643,7 @@ def run(tier, only=None):
     t10(rep)
     t12(rep)
     t13(rep)
+    t14(rep)
     from . import variant_dispatch
     _fg = common.extract("genc.c", all_trees=True)
     for _d, _fl in (("gccExpr", 8), ("gccCmd", 3), ("gccRef", 8)):
